@@ -13,7 +13,7 @@ import Pog.Model.GenCode
 
   op     = {"method": str, "path": str (template), "pathParams": [param], "params": [param],
             "body": null | {"required": bool, "media": [str]}, "responses": [resp]}
-  param  = {"name": str, "in": str, "required": bool}
+  param  = {"name": str, "in": str, "required": bool, "kind"?: "string"|"integer"|"number"|"boolean"|…}
   resp   = {"key": str, "content": [{"mt": str, "shape": shape}]}
   shape  = {"k": "model"|"listModel", "n": str} | {"k": "int"|"string"|"binary"|"noSchema"}
   args   = [[identifier, value]]       value = {"t": "none"} | {"t": "str"|"other", "v": token}
@@ -40,11 +40,22 @@ private def gLoc (s : String) : GLoc :=
   | "cookie" => .cookie
   | _ => .other
 
+/-- `kind` = the spec type of the parameter's schema; absent = `string`. -/
+private def gKind (j : Json) : Except String PKind :=
+  match j.getObjVal? "kind" with
+  | .error _ => pure .plain
+  | .ok v => do
+    match (← v.getStr?) with
+    | "integer" => pure .num
+    | "number" => pure .num
+    | "boolean" => pure .bool
+    | _ => pure .plain
+
 private def gParam (j : Json) : Except String GParam := do
   let name ← getStr (← j.getObjVal? "name")
   let loc ← (← j.getObjVal? "in").getStr?
   let req ← getBool (← j.getObjVal? "required")
-  pure ⟨name, gLoc loc, req⟩
+  pure ⟨name, gLoc loc, req, ← gKind j⟩
 
 private def gShape (j : Json) : Except String Shape := do
   let k ← (← j.getObjVal? "k").getStr?
